@@ -909,7 +909,7 @@ impl ParserListener for Screen {
     ///
     /// - `count`: Number of lines to insert.
     fn insert_lines(&mut self, count: Option<u32>) {
-        let count = count.unwrap_or(1);
+        let count = count.map(|a| if a > 0 { a } else { 1 }).unwrap_or(1);
         let Margins { top, bottom } = self
             .margins
             .unwrap_or(Margins { top: 0, bottom: self.lines - 1 });
@@ -932,7 +932,7 @@ impl ParserListener for Screen {
     }
 
     fn delete_lines(&mut self, count: Option<u32>) {
-        let count = count.unwrap_or(1);
+        let count = count.map(|a| if a > 0 { a } else { 1 }).unwrap_or(1);
         let Margins { top, bottom } = self
             .margins
             .unwrap_or(Margins { top: 0, bottom: self.lines - 1 });
